@@ -50,6 +50,8 @@ func StartLoops(parent context.Context, n *Node, names ...string) *Loops {
 				n.M.DataStoreRetrieveLoop(ctx)
 			case "daIncluder":
 				n.M.DAIncluderLoop(ctx, l.ErrCh)
+			case "aggregation":
+				n.M.AggregationLoop(ctx, l.ErrCh)
 			case "headerSubmit":
 				n.M.HeaderSubmissionLoop(ctx)
 			case "dataSubmit":
